@@ -1011,6 +1011,8 @@ class Compiler:
         raise TranslationError("super().%s not found" % attr)
       return self.bind_class_attr(c, raw, base.self_val, attr)
     if isinstance(base, SO):
+      if (base.model.name, attr) in self.sc.stored_attrs:
+        return self.sc.stored_attrs[(base.model.name, attr)]
       try:
         return self.lift(base.model.static_attr(attr))
       except KeyError:
@@ -1103,6 +1105,8 @@ class Compiler:
       obj.attrs[attr] = val
       return
     if attr in self.sc.ignored_attr_stores and isinstance(base, (SE, SO)):
+      if isinstance(base, SO):
+        self.sc.stored_attrs[(base.model.name, attr)] = val      # e.g. thread.name = uuid4(): remembered for a later read
       return
     raise TranslationError("attribute store on %r" % (base,))
 
